@@ -90,6 +90,19 @@ func (propC18) Gen(seed uint64, tier string, idx int) *Plan {
 			streaming = true
 		}
 	case "whole":
+		if r.Chance(350) && p.Stack.StreamBuf > 1 {
+			// a client that stops reading for longer than the read timeout while a backend that never pauses
+			// has megabytes to deliver: the silence is the client's, the backend is not stalled
+			scen = "whole-slow-reader"
+			resp.Chunks = nil
+			for i := 0; i < 6+r.Pick(10); i++ {
+				resp.Chunks = append(resp.Chunks, Chunk{N: 262144})
+			}
+			p.Net.MaxSegment = 65536
+			op.PauseAfter = pickS(r, []int{1, 32 << 10, 300 << 10})
+			op.PauseFor = rt * time.Duration(130+r.Pick(250)) / 100
+			op.Deadline = 60 * time.Second
+		}
 	case "stall":
 		at := pickS(r, []string{"after-headers", "body", "body"})
 		resp.Fault = &Fault{At: at, K: 1 + r.Pick(nChunks-1), Kind: "stall", For: 0}
@@ -206,6 +219,11 @@ func (propC18) Check(r *Run) []Violation {
 	case "live":
 		if e.GateTimeout {
 			add("C18/chunk-not-delivered-live", "backend wrote %d B and waited %s for the client to see them before sending more; the client had %d B", len(e.BodyWrote), r.Sim.gateLimit, c.BodyLen)
+		}
+		fallthrough
+	case "whole-slow-reader":
+		if !e.Completed && c.Aborted == "" && !c.TimedOut {
+			add("C18/stream-cut-although-backend-not-stalled", "the backend never paused (it had written %d B when Olla went away at %s); the client stopped reading for %s (read timeout %s), then read on and got %d B, err=%q status %d", len(e.BodyWrote), e.PeerGoneAt, r.Op(1).PauseFor, rt, c.BodyLen, c.BodyErr, c.Status)
 		}
 		fallthrough
 	case "whole":
